@@ -11,9 +11,10 @@ TRUSTED_BASE = [
     "modelled, not verified: the Rust sources themselves; the tie is the correspondence check run on every invocation",
 ]
 
-def step(name, harness, model, quick, thorough, shards_thorough=8, args=None):
+def step(name, harness, model, quick, thorough, shards_thorough=8, args=None, viol=None):
+    """viol: regex; only VIOL verdicts matching it are violations of the property owning the plan."""
     return dict(name=name, harness=harness, model=model, n=dict(quick=quick, thorough=thorough),
-                shards=dict(quick=1, thorough=shards_thorough), args=args or [])
+                shards=dict(quick=1, thorough=shards_thorough), args=args or [], viol=viol)
 
 
 import importlib, pkgutil, os
